@@ -1,10 +1,15 @@
-// C06 - TCP progress. A configuration grid; every point is one deterministic execution of a real
+// C06 - TCP progress. Two families. (i) A configuration grid; every point is one deterministic execution of a real
 // TCP transfer through real queues (drops are produced by the queues themselves). Oracle at
 // quiescence: connect and accept completed, every byte the writer set out to send was reported
 // written and delivered intact to a reader that keeps a read posted.
+// (ii) The adversary-hop scenario of the C05 engine (tcp_adversary.hpp) with nobody closing: the hop drops / holds
+// any of the first N droppable packets (every combination of up to K deviations); each packet is dropped at most
+// once per transmission and only finitely often, so at quiescence no write may still be pending and everything
+// accepted must have been delivered.
 #include "runner.hpp"
 #include "world.hpp"
 #include "tracked.hpp"
+#include "tcp_adversary.hpp"
 
 using namespace vf;
 
@@ -152,9 +157,15 @@ struct Exec
 struct ProgressEngine : Engine
 {
 	std::vector<Pt> pts; bool thorough = false;
+	std::vector<tcpadv::Cfg> acfgs; int AN = 8, AK = 2;
 	uint64_t units(Args const& a) override
 	{
 		thorough = a.thorough(); pts.clear();
+		acfgs.clear(); AN = thorough ? 10 : 8; AK = thorough ? 3 : 2;
+		for (int r = 0; r < 3; ++r) for (int wp = 0; wp < tcpadv::N_WPLANS_ALL; ++wp) for (int rp : { 0, 1, 2, 3, 5, 6 }) for (int d = 0; d < 3; ++d) {
+			if (r == 2 && rp == 0 && !thorough) continue; // 50 kB/s with 7-byte reads: thorough only
+			acfgs.push_back(tcpadv::Cfg{ r, wp, rp, tcpadv::C_NEVER, d });
+		}
 		for (int shape = 0; shape < NSHAPES; ++shape) for (int bw = 0; bw < 4; ++bw) for (int lat = 0; lat < 4; ++lat) for (int cap = 0; cap < 5; ++cap)
 		for (int len = 0; len < (thorough ? 6 : 5); ++len) for (int wr = 0; wr < 3; ++wr) for (int rd = 0; rd < 2; ++rd) for (int pat = 0; pat < 3; ++pat) {
 			if (pat == BOTH_WAYS && CAPS[cap] != 0) continue; // the statement restricts simultaneous traffic to unbounded queues
@@ -162,10 +173,31 @@ struct ProgressEngine : Engine
 			if (len == 5 && bw == 1) continue; // 1.5 MB at 5 kB/s: 5 virtual minutes of 1-segment steps, skipped everywhere
 			pts.push_back(Pt{ bw, lat, cap, shape, len, wr, rd, pat });
 		}
-		return pts.size();
+		return pts.size() + acfgs.size();
+	}
+	void adv_unit(uint64_t u, Ctx& ctx)
+	{
+		ctx.watchdog_s = 30;
+		tcpadv::Cfg const& cfg = acfgs[size_t(u)];
+		bool done = ctx.explore([&](Chooser& ch) {
+			Case c; c.set("adv", (long long)u).set("n", AN).set("thorough", thorough ? 1 : 0).set_ints("choices", ch.prefix);
+			ctx.begin(c);
+			tcpadv::Exec e; e.cfg = cfg; e.ch = &ch; e.ctx = &ctx; e.N = AN; e.want_progress = true;
+			e.run();
+			c.set_ints("choices", ch.taken());
+			ctx.state(fmt("adv%llu|", (unsigned long long)u) + c.str("choices"));
+			ctx.outcome(fmt("%lld/%lld d%llu h%llu", (long long)e.a.received, (long long)e.b.received, (unsigned long long)e.drops, (unsigned long long)e.holds));
+			ctx.R.counters["adversary_executions"]++; ctx.R.counters["packets_dropped_by_adversary"] += e.drops; ctx.R.counters["packets_held_by_adversary"] += e.holds;
+			for (auto& f : e.fails) { if (f.find("] progress:") == std::string::npos && f.find("] livelock:") == std::string::npos) continue; // the safety clauses are C05's
+				std::string tr; for (auto& l : e.log) tr += l + " ; ";
+				add_violation(ctx, "progress", c, tcpadv::cfg_str(cfg) + ": " + f + " | " + tr, fmt("progress/adversary/%d/%d", cfg.route, cfg.dir)); }
+			ctx.end();
+		}, AK);
+		if (done) { ctx.R.bounds["adversary_deviations"] = AK; ctx.R.bounds["adversary_choice_points"] = AN; }
 	}
 	void run_unit(uint64_t u, Ctx& ctx) override
 	{
+		if (u >= pts.size()) { adv_unit(u - pts.size(), ctx); return; }
 		ctx.watchdog_s = thorough ? 300 : 60;
 		if (!ctx.next_case()) return;
 		Pt const& p = pts[size_t(u)];
@@ -186,6 +218,14 @@ struct ProgressEngine : Engine
 	int replay(Case const& c, Args const& a) override
 	{
 		Args a2 = a; a2.tier = c.num("thorough") ? "thorough" : "quick"; units(a2);
+		if (c.has("adv")) {
+			tcpadv::Cfg const& cfg = acfgs.at(size_t(c.num("adv")));
+			std::fprintf(stdout, "%s\n", tcpadv::cfg_str(cfg).c_str());
+			Chooser ch; ch.reset(c.ints("choices")); tcpadv::Exec e; e.cfg = cfg; e.ch = &ch; e.ctx = nullptr; e.N = int(c.num("n", AN)); e.live = true; e.want_progress = true; e.run();
+			int nf = 0; for (auto& f : e.fails) if (f.find("] progress:") != std::string::npos || f.find("] livelock:") != std::string::npos) { ++nf; std::fprintf(stdout, "VIOLATION %s\n", f.c_str()); }
+			std::fprintf(stdout, nf ? "=> %d violation(s)\n" : "=> ok\n", nf);
+			return nf ? 1 : 0;
+		}
 		Pt const& p = pts.at(size_t(c.num("pt")));
 		std::fprintf(stdout, "%s\n", pt_str(p).c_str());
 		Exec e; e.p = p; e.ctx = nullptr; Res r = e.run();
